@@ -43,3 +43,8 @@ add("C09","exploration",
  "Held on the generated key files (incl. multi-revision sequences with preserved/older mtime), the full password x user x source address grid, and the health sessions counted in the evidence.",
  "Trusted: x/crypto/ssh (shared by harness and subject); CRLF and junk lines are outside 'well-formed'.",
  "DESIGN.md §2 C09")
+add("C14","exploration",
+ "runtime monitoring: seeded operation histories driven by a harness SSH/TCP client against in-process dtail servers; oracles at quiescent points (probe acceptance, STATS log values vs a sequential model), exact served counts for simultaneous bursts, and porcupine linearizability checking of recorded concurrent connect/close histories against a sequential counter",
+ "Held on the operation histories, bursts and porcupine-checked concurrent phases counted in the evidence (MaxConnections 1, 3, 5).",
+ "Trusted: x/crypto/ssh, porcupine v1.3.0; 'served' = answers a global request after authentication; client-side closes may linearize any time after their call.",
+ "DESIGN.md §2 C14")
